@@ -25,7 +25,7 @@ F15 = "F15-mem-rotation-livelock"
 ASSUMPTIONS = ["router sets on the in-memory broker; shared-queue scenarios also on the Redis and RabbitMQ brokers (in-process fake servers, assumption sets R, A: RabbitMQ requeues a rejected message at its original position)"]
 
 NAMES = ["a", "ab", "b", "c"]     # one name a prefix of another: topics are compared whole
-QUEUES = ["q1", "q2", "q3"]
+QUEUES = ["q1", "Q1", "q3"]        # queue names are compared as written (case included)
 
 
 def gen_routers(rng: Rng) -> list:
@@ -163,7 +163,7 @@ def run(ctx) -> Result:
     model = Model()
     deep = tier == "thorough" or ctx.get("search")
     # corpus first: the repaired defect F7 (name re-registered on another queue by a later router)
-    fixed = [[("a", "q1", 1), ("b", "q1", 2)], [("a", "q2", 3)]]
+    fixed = [[("a", "q1", 1), ("b", "q1", 2)], [("a", "q3", 3)]]
     jobs = [(n, q) for n in NAMES for q in QUEUES]
     o = vtime.run(lambda loop: scenario(fixed, jobs, False), budget=20_000_000)
     check(fixed, jobs, o, model, res, "corpus/C11-F7 (regression)")
